@@ -78,3 +78,59 @@ func TestLangAgainstRegexp(t *testing.T) {
 		}
 	}
 }
+
+// The leftmost-first automaton against Go's regexp: the length of the match regexp selects
+// at the start of the input equals the last accepting position of the run of preferredDFA.
+func TestPreferredAgainstRegexp(t *testing.T) {
+	pats := []string{
+		`a|ab`, `ab|a`, `(?:a|ab)(?:c|bcd)`, `a*?b?`, `a*b?`, `(?:a|b)*?c`, `x{1,3}?x`, `x{1,3}x?y?`,
+		`"(\\(?:[abfnrtv'"\\])|[^"\n])*"`, `"([^"\n]|\\(?:[abfnrtv'"\\]))*"`,
+		`'(\\(?:[abfnrtv'"\\])|[^'\n])'`, `'([^'\n]|\\(?:[abfnrtv'"\\]))'`,
+		`0|[+-]?[1-9][0-9]*`, `[+-]?(?:(?:0|[1-9][0-9]*)\.[0-9]+)(?:[eE][+-][1-9][0-9]*)?`, `(a+)(a*)`, `(?:a+?)(?:a*)b?`,
+	}
+	al := newAlphabet()
+	for _, p := range pats {
+		re, err := parseRegex(p)
+		if err != nil {
+			t.Fatal(err)
+		}
+		al.addRegexp(re)
+	}
+	al.freeze()
+	chars := []rune("abcdxy\"'\\n019+-.eE\n")
+	rng := rand.New(rand.NewSource(7))
+	for _, p := range pats {
+		re, _ := parseRegex(p)
+		d, err := preferredDFA(al, re)
+		if err != nil {
+			t.Fatal(err)
+		}
+		gre := regexp.MustCompile(`^(?:` + p + `)`)
+		for k := 0; k < 30000; k++ {
+			n := rng.Intn(9)
+			w := make([]rune, n)
+			for j := range w {
+				w[j] = chars[rng.Intn(len(chars))]
+			}
+			s := string(w)
+			want := -1
+			if loc := gre.FindStringIndex(s); loc != nil {
+				want = len([]rune(s[:loc[1]]))
+			}
+			got := -1
+			st := d.start
+			if d.acc[st] {
+				got = 0
+			}
+			for i, r := range w {
+				st = d.next[st][al.classOf(r)]
+				if d.acc[st] {
+					got = i + 1
+				}
+			}
+			if got != want {
+				t.Fatalf("pattern %s input %q: preferredDFA selects a match of %d runes, regexp of %d", p, s, got, want)
+			}
+		}
+	}
+}
